@@ -343,7 +343,8 @@ class Telomere:
 
     def _enter_senescence(self, reason: SenescenceReason):
         """Enter senescence state."""
-        if self._phase in (LifecyclePhase.SENESCENT, LifecyclePhase.APOPTOTIC, LifecyclePhase.TERMINATED):
+        # Only an ACTIVE agent can age into senescence (not one that never started)
+        if self._phase != LifecyclePhase.ACTIVE:
             return
 
         self._senescence_reason = reason
